@@ -33,15 +33,11 @@ def main():
             if s.count(m["old"]) != 1:
                 res.append((m, "BADPATCH(%d matches)" % s.count(m["old"]), 0)); continue
             open(p, "w").write(s.replace(m["old"], m["new"]))
-            env = dict(os.environ, VERIF_REPO=tmp)
+            # evidence / replays of mutant runs go to the scratch tree, not over the real ones
+            env = dict(os.environ, VERIF_REPO=tmp, VERIF_SCRATCH_OUT=os.path.join(tmp, ".pv-out"))
             t0 = time.time()
-            # evidence of mutant runs must not overwrite the real evidence
-            bak = None
-            evp = os.path.join(VERIF, "evidence", m["prop"] + ".json")
-            if os.path.exists(evp): bak = open(evp).read()
             r = subprocess.run([os.path.join(VERIF, "check"), m["prop"], "--tier", tier],
                                env=env, capture_output=True, text=True)
-            if bak is not None: open(evp, "w").write(bak)
             mech = [l for l in r.stdout.splitlines() if "mechanism:" in l]
             res.append((m, "caught" if r.returncode == 1 else "MISSED(rc=%d)" % r.returncode,
                         time.time() - t0, mech[:2]))
